@@ -688,6 +688,11 @@ func newParseOptions(b []byte) (NewOptions, error) {
 		t := b[i]
 		l := int(b[i+1]) * 8
 
+		// An option with length zero is invalid (RFC 4861 4.6) and would never advance.
+		if l == 0 {
+			return NewOptions{}, errParseMessage
+		}
+
 		// Verify that we won't advance beyond the end of the byte slice.
 		if l > len(b[i:]) {
 			return NewOptions{}, io.ErrUnexpectedEOF
